@@ -41,12 +41,14 @@ package pegnet
 //@ ghost var Lrate map[int]map[int]int
 //@ ghost var envHealthy bool
 //@
+//@ spec func isRejectErr(e error) bool = e == InsufficientBalanceErr || e == PFCTOneWayError || e == ZeroRatesError || e == PSMALLOneWayError
 //@ spec func validTicker(t int) bool = fat2.PTickerInvalid < t && t < fat2.PTickerMax
 //@ spec func balNonNeg(b map[factom.FAAddress]map[int]int) bool = forall a factom.FAAddress, t int :: b[a][t] >= 0
 //@ spec func credit(b map[factom.FAAddress]map[int]int, a factom.FAAddress, t int, v int) map[factom.FAAddress]map[int]int = upd(b, a, upd(b[a], t, b[a][t] + v))
 //@
 //@ func (*Pegnet).AddToBalance
 //@   trusted
+//@   ensures !isRejectErr(err)
 //@   modifies Lbal, Lsupply
 //@   ensures err == nil ==> Lbal == credit(old(Lbal), *adr, ticker, value)
 //@   ensures err == nil ==> Lsupply == upd(old(Lsupply), ticker, old(Lsupply)[ticker] + value)
@@ -54,6 +56,7 @@ package pegnet
 //@
 //@ func (*Pegnet).SelectPendingBalance
 //@   trusted
+//@   ensures !isRejectErr(err)
 //@   pure
 //@   ensures err == nil ==> result == Lbal[*adr][ticker] && validTicker(ticker)
 //@   ensures err != sql.ErrNoRows
@@ -61,6 +64,7 @@ package pegnet
 //@
 //@ func (*Pegnet).SelectPendingBalances
 //@   trusted
+//@   ensures !isRejectErr(err)
 //@   pure
 //@   ensures err == nil ==> result != nil && fresh(result) && (forall t fat2.PTicker :: validTicker(t) ==> dom(result)[t] && vals(result)[t] == Lbal[*adr][t])
 //@   ensures err == nil ==> (forall t fat2.PTicker :: dom(result)[t] ==> validTicker(t))
@@ -70,10 +74,12 @@ package pegnet
 //@   pure
 //@   ensures result1 == nil ==> result0 != nil
 //@   ensures envHealthy ==> result1 == nil
+//@   ensures !isRejectErr(result1)
 //@
 //@ extern func (database/sql.Result).LastInsertId
 //@   pure
 //@   ensures envHealthy ==> result1 == nil
+//@   ensures !isRejectErr(result1)
 //@
 //@ site (*Pegnet).SubFromBalance | (*database/sql.Stmt).Exec | 1
 //@   modifies Lbal, Lsupply
@@ -81,6 +87,7 @@ package pegnet
 //@   ensures err == nil ==> Lsupply == upd(old(Lsupply), ticker, old(Lsupply)[ticker] - value)
 //@   ensures envHealthy && old(Lbal)[*adr][ticker] >= value ==> err == nil
 //@   ensures err == nil ==> result0 != nil
+//@   ensures !isRejectErr(err)
 //@
 //@ func (*Pegnet).SubFromBalance
 //@   props C03 C04
@@ -91,35 +98,41 @@ package pegnet
 //@   ensures @decides err == nil ==> ((txError == nil) <==> old(Lbal)[*adr][ticker] >= value)
 //@   ensures @never_negative err == nil ==> balNonNeg(Lbal)
 //@   ensures @only_known_txerr txError == nil || txError == InsufficientBalanceErr
+//@   ensures @err_not_reject !isRejectErr(err)
 //@   ensures @healthy envHealthy && validTicker(ticker) && value <= MaxInt64 ==> err == nil
 //@   canary @debit_always err == nil ==> Lbal == credit(old(Lbal), *adr, ticker, 0 - value)
 //@
 //@ func (*Pegnet).InsertTransactionRelation
 //@   trusted
+//@   ensures !isRejectErr(result1)
 //@   modifies Lrel
 //@   ensures result1 == nil ==> Lrel == upd(old(Lrel), *entryHash, true)
 //@   ensures envHealthy ==> result1 == nil
 //@
 //@ func (*Pegnet).IsReplayTransaction
 //@   trusted
+//@   ensures !isRejectErr(result1)
 //@   pure
 //@   ensures result1 == nil ==> (result0 <==> Lrel[*entryHash])
 //@   ensures envHealthy ==> result1 == nil
 //@
 //@ func (*Pegnet).SetTransactionHistoryExecuted
 //@   trusted
+//@   ensures !isRejectErr(result)
 //@   modifies Lexec
 //@   ensures result == nil ==> Lexec == upd(old(Lexec), *txbatch.Entry.Hash, executed)
 //@   ensures envHealthy ==> result == nil
 //@
 //@ func (*Pegnet).SetTransactionHistoryConvertedAmount
 //@   trusted
+//@   ensures !isRejectErr(result)
 //@   modifies LtoAmt
 //@   ensures result == nil ==> LtoAmt == upd(old(LtoAmt), *txbatch.Entry.Hash, upd(old(LtoAmt)[*txbatch.Entry.Hash], index, amount))
 //@   ensures envHealthy ==> result == nil
 //@
 //@ func (*Pegnet).SetTransactionHistoryPEGConvertedRequestAmount
 //@   trusted
+//@   ensures !isRejectErr(result)
 //@   modifies LtoAmt, Lrefund
 //@   ensures result == nil ==> LtoAmt == upd(old(LtoAmt), *txbatch.Entry.Hash, upd(old(LtoAmt)[*txbatch.Entry.Hash], index, pegAmount))
 //@   ensures result == nil ==> Lrefund == upd(old(Lrefund), *txbatch.Entry.Hash, upd(old(Lrefund)[*txbatch.Entry.Hash], index, refundAmount))
@@ -128,6 +141,7 @@ package pegnet
 //@ // history rows: (entry_hash, height) and (entry_hash, tx_index) are unique => fails iff a row for the hash exists
 //@ func (*Pegnet).InsertTransactionHistoryTxBatch
 //@   trusted
+//@   ensures !isRejectErr(result)
 //@   modifies Lhist, Lexec
 //@   ensures result == nil ==> !old(Lhist)[*txbatch.Entry.Hash] && Lhist == upd(old(Lhist), *txbatch.Entry.Hash, true) && Lexec == upd(old(Lexec), *txbatch.Entry.Hash, 0)
 //@   ensures envHealthy && !old(Lhist)[*txbatch.Entry.Hash] ==> result == nil
@@ -135,6 +149,7 @@ package pegnet
 //@ // holding: entry_hash UNIQUE => fails iff already held
 //@ func (*Pegnet).InsertTransactionBatchHolding
 //@   trusted
+//@   ensures !isRejectErr(result1)
 //@   modifies Lhold
 //@   ensures result1 == nil ==> old(Lhold)[*txBatch.Entry.Hash] < 0 && Lhold == upd(old(Lhold), *txBatch.Entry.Hash, height)
 //@   ensures envHealthy && old(Lhold)[*txBatch.Entry.Hash] < 0 ==> result1 == nil
